@@ -5,11 +5,14 @@
 //!   rvmc worker <ID> <tier> <lo> <hi> <idxfile>      (internal)
 
 mod c01;
+mod c02;
 mod c03;
 mod c08;
 mod c11;
+mod c12;
 mod c17;
 mod driver;
+mod dump;
 mod exec;
 mod gen;
 mod imp;
@@ -30,9 +33,11 @@ pub fn profile() -> &'static str {
 fn property(id: &str) -> Option<Box<dyn Property>> {
     Some(match id {
         "C01" => Box::new(c01::C01::new()),
+        "C02" => Box::new(c02::C02::new()),
         "C03" => Box::new(c03::C03::new()),
         "C08" => Box::new(c08::C08::new()),
         "C11" => Box::new(c11::C11::new()),
+        "C12" => Box::new(c12::C12::new()),
         "C17" => Box::new(c17::C17::new()),
         _ => return None,
     })
